@@ -398,6 +398,41 @@ def x5_x6_control_and_sink(ck):
     ck.floor("X6", sinks, 1, "status event send sites")
 
 
+
+def line_empty_test(c):
+    """Recognises a test of `the line read back with iter_moves is empty`.
+    -> None | ("bool", true_means_empty) | "opt" (discriminant of an Option of its first element: 0 = empty)."""
+    neg = False
+    while c[0] == "un" and c[1] == "Not":
+        c = c[2]
+        neg = not neg
+    if not any(x[0] == "call" and x[1].endswith("::iter_moves") for x in walk(c)):
+        return None
+    if c[0] == "call":
+        last = c[1].split("::")[-1]
+        if last == "is_empty":
+            return ("bool", not neg)
+        inner_first = any(x[0] == "call" and x[1].split("::")[-1] in ("first", "last", "get", "next", "peek") for x in walk(c))
+        if last == "is_none" and inner_first:
+            return ("bool", not neg)
+        if last == "is_some" and inner_first:
+            return ("bool", neg)
+    if c[0] == "bin" and c[1] in ("Eq", "Ne", "Gt", "Lt", "Ge", "Le"):
+        a, b = c[2], c[3]
+        is_len = lambda x: x[0] == "call" and x[1].split("::")[-1] == "len"
+        if is_len(a) and const_value(b) == 0 and c[1] in ("Eq", "Ne", "Gt"):
+            return ("bool", (c[1] == "Eq") != neg)
+        if is_len(b) and const_value(a) == 0 and c[1] in ("Eq", "Ne", "Lt"):
+            return ("bool", (c[1] == "Eq") != neg)
+        if is_len(a) and const_value(b) == 1 and c[1] in ("Lt", "Ge"):
+            return ("bool", (c[1] == "Lt") != neg)
+    if c[0] == "discr" and not neg:
+        inner = c[1]
+        # (`next` is not accepted here: the loop head of `for mv in line.iter()` has the same shape)
+        if inner[0] == "call" and any(x[0] == "call" and x[1].split("::")[-1] in ("first", "last", "get") for x in walk(inner)):
+            return "opt"
+    return None
+
 def x7_iteration_loop(ck):
     prog = ck.prog
     it = ck.body(ITER, "X7")
@@ -426,18 +461,18 @@ def x7_iteration_loop(ck):
             t = blk["term"]
             if t["k"] != "switch" or blk.get("cleanup") or bb not in cfg.reachable(it, [head]):
                 continue
-            c = tb.operand(t["discr"])
-            neg = False
-            while c[0] == "un" and c[1] == "Not":
-                c = c[2]
-                neg = not neg
-            if not (c[0] == "call" and c[1].endswith("::is_empty") and any(x[0] == "call" and x[1].endswith("::iter_moves") for x in walk(c))):
+            form = line_empty_test(tb.operand(t["discr"]))
+            if form is None:
                 continue
             if head not in cfg.reachable(it, [bb]):
                 continue   # already outside the loop
             n_dec += 1
             zero = [x[1] for x in t["cases"] if x[0] == 0]
-            empty_edge = zero[0] if neg and zero else (t["otherwise"] if not neg else None)
+            if form == "opt" or form == ("bool", False):
+                # None variant / false = empty: the case for 0, or `otherwise` when the only listed case is 1
+                empty_edge = zero[0] if zero else (t["otherwise"] if [x[0] for x in t["cases"]] == [1] else None)
+            else:
+                empty_edge = t["otherwise"] if zero and len(t["cases"]) == 1 else None
             if empty_edge is None:
                 ck.fail("X7.terminal_root", "bb%d" % bb, it.where(t.get("line")), "cannot tell which edge of the emptiness test is the empty one")
                 continue
